@@ -72,3 +72,19 @@ func dumpStack(v *vm.VM) string {
 	}
 	return strings.Join(r, " ")
 }
+
+// TestGenDump prints generated program VERIF_DUMP (index).
+func TestGenDump(t *testing.T) {
+	s := os.Getenv("VERIF_DUMP")
+	if s == "" {
+		t.Skip()
+	}
+	var idx int
+	fmt.Sscan(s, &idx)
+	p := genProgram(idx, 2)
+	fmt.Println(p.src)
+	fmt.Println("---- reset")
+	fmt.Println(p.reset)
+	fmt.Println("---- calls", p.calls)
+	fmt.Println("---- feat", p.feat)
+}
